@@ -896,7 +896,7 @@ int strlencmp(char const* pStr1, unsigned Str1Len, char const* pStr2, unsigned S
 
     for (p1 = pStr1, p1End = p1 + Str1Len, p2 = pStr2, p2End = p2 + Str2Len;
          p1 < p1End && p2 < p2End; p1++, p2++) {
-        Diff = ((int)*p1) - ((int)*p2);
+        Diff = ((int)(unsigned char)*p1) - ((int)(unsigned char)*p2);
         if (Diff) {
             return Diff;
         }
